@@ -10,3 +10,4 @@ INVARIANT PortAside
 INVARIANT NoLookAlike
 INVARIANT Monotone
 INVARIANT MalformedOut
+INVARIANT EmptyListTrustsNothing
